@@ -131,3 +131,17 @@ pub proof fn lemma_valn1(s: Seq<Word>)
     assert(pw(0) == 1);
     assert((s[0] as int) * pw(0) == s[0] as int) by (nonlinear_arith) requires pw(0) == 1;
 }
+
+/// the short-product branch of mul_normalized / sqr_normalized: one conditional subtraction of M reduces x < B^n <= 2M.
+/// `after` is what the code leaves: x itself when x < M, otherwise x - M + c*B^n for the borrow c of the word subtraction.
+pub proof fn lemma_mm_short(x: int, mv: int, pn: int, after: int)
+    requires 0 <= x < pn, 2 * mv >= pn, mv >= 1, 0 <= after < pn,
+        (x < mv && after == x) || (x >= mv && (after == x - mv || after - pn == x - mv)),
+    ensures after == x % mv, after < mv,
+{
+    if x < mv {
+        vstd::arithmetic::div_mod::lemma_fundamental_div_mod_converse(x, mv, 0, after);
+    } else {
+        vstd::arithmetic::div_mod::lemma_fundamental_div_mod_converse(x, mv, 1, after);
+    }
+}
